@@ -6,6 +6,7 @@ import jwegen as E
 import framework as F
 
 ID = "C09"
+CORPUS_FIRST = True
 RULE = ("every operation of the harness (jws sig/sig_io/ver/ver_io/hdr, jwe enc/enc_jwk/enc_cek/enc_cek_io/dec/dec_jwk/"
         "dec_cek/dec_cek_io/hdr, jwk gen/pub/prm/eql/thp/thp_buf/exc, OpenSSL conversions, b64 JSON wrappers) on valid "
         "objects of every algorithm and on 1..4 random edits of them at any path of any argument: member deletion, "
